@@ -178,6 +178,7 @@ def main():
     except ExtractionBreak as e:
         print('EXTRACTION-BREAK: %s' % e)
         sys.exit(2)
+    txt = txt.replace('#include "../stubs/', '#include "' + os.path.join(VERIF, 'stubs') + '/')   # the woven file may live anywhere
     open(outc, 'w').write(txt)
     json.dump(w.meta, open(outc + '.meta.json', 'w'), indent=1)
 
